@@ -210,6 +210,15 @@ let thrift_run fn argstr =
        | TErr e -> "err:" ^ terr_name e
        | TPanic -> "PANIC"
        | TOutOfFuel -> "OUTOFFUEL")
+  | "t.strict", [ts; h; p] ->
+      (* Decoder.Decode after SetStrict(true): Thrift/SpecC.v TDecode *)
+      let t = tty_of_sx (parse_sx ts) in
+      let b = bytes_of_hex h in
+      (match tDecode (nat_of_int (List.length b + 50)) true (tproto_of p) t b with
+       | TOk r -> tcanon t r
+       | TErr e -> "err:" ^ terr_name e
+       | TPanic -> "PANIC"
+       | TOutOfFuel -> "OUTOFFUEL")
   | _ -> "-\t-"
 
 (* ---- json.Decoder under a scripted reader / json.Tokenizer ---- *)
@@ -298,7 +307,7 @@ let json_run fn argstr =
            let n = List.length data in
            let ((vals, fin), _) = decode_all (nat_of_int (n + 2)) (nat_of_int (n + List.length script + 40)) (nat_of_int (2 * n + 8)) (d_init script term) [] [] in
            let fs = (match fin with
-             | DError REOF -> "eof" | DError RUnexpectedEOF -> "ueof" | DError RFail -> "readerr" | DSyntax -> "syntax"
+             | DError REOF -> "eof" | DError RUnexpectedEOF -> "badinput" | DError RFail -> "readerr" | DSyntax -> "badinput"
              | DValue _ -> "?" | DOutOfFuel -> "OUTOFFUEL") in
            let out = String.concat " " (List.map (fun v -> compact_json (List.map int_of_z v)) vals @ [fs]) in
            let out = if String.length out > 600
@@ -372,6 +381,7 @@ let proto_run fn argstr =
        | Ok None -> "err"
        | Panic -> "PANIC"
        | OutOfFuel -> "OUTOFFUEL")
+  | ("p.topto" | "p.unexp"), _ -> "-\t-"   (* declared Go shapes and top-level scalars: outside the descriptor universe of the model *)
   | "p.scan", [h] ->
       (match scan0 (bytes_of_hex h) with
        | ROk l -> "ok " ^ String.concat "" (List.map (fun ((f, t), v) -> Printf.sprintf "%s:%s:%s " (string_of_z f) (string_of_z t) (hex_of_bytes v)) l)
